@@ -6,7 +6,8 @@
 From FunV Require Import Base.Tac Model.BrokerModel Proofs.Broker_base Proofs.Broker_safety
   Proofs.Broker_order Proofs.Broker_live Proofs.Broker_once Proofs.Broker_exact.
 
-(* every configuration (load-shedding ones included): publications are distinct, a subscriber's log
+(* every configuration (load-shedding back-ends, input/output filters on the distributor included):
+   publications are distinct, a subscriber's log
    contains only published messages, and no publication twice *)
 Theorem C08_only_published_no_dup :
   forall c wake st s, reach c wake st ->
@@ -31,16 +32,16 @@ Print Assumptions C08_single_worker_order.
    the context is live, and at quiescence it is in s's log exactly once.  `wake` must satisfy the
    back-end's no-lost-wake-up property (C07). *)
 Theorem C08_subscribed_throughout_exactly_once :
-  forall c wake, lossless c -> wf_cfg c -> sigbuf c = true ->
+  forall c wake, lossless c -> wf_cfg c -> sigbuf c = true -> skipstop c = false ->
     (forall st w, wk st w = WParked -> (dist st <> [] \/ live st = false) -> wake st w = true) ->
     forall st s m, reach c wake st -> live st = true ->
       ~ In s (unsubcalled st) -> In m (owed st s) ->
       (In m (rcv st s) \/ pend_for st s m) /\
       (quiescent c wake st -> count_occ Nat.eq_dec (rcv st s) m = 1).
 Proof.
-  intros c wake LL WF SB WS st s m R LV Hn Ho. split.
+  intros c wake LL WF SB SK WS st s m R LV Hn Ho. split.
   - exact (owed_delivered_or_pending c wake LL st s m R LV Hn Ho).
-  - intros Q. exact (exactly_once c wake LL WS st s m WF SB R Q LV Hn Ho).
+  - intros Q. exact (exactly_once c wake LL SK WS st s m WF SB R Q LV Hn Ho).
 Qed.
 Print Assumptions C08_subscribed_throughout_exactly_once.
 
